@@ -14,6 +14,13 @@ The real code is then run through the entry points of the property
        per name* on both sides the matrices are equal; states/distributions equal within the 1e-6
        text grid; experiments keep filter (0 included), heralds, ports, detectors, noise, input, ps.
 
+Feed-forward configurators (FFCircuitProvider / FFConfigurator) are generated stand-alone, in containers,
+nested in the experiments a provider holds, and inside experiments (where `Experiment.add` freezes their
+circuit size).  A provider is built by a *history* of `add_configuration` / `block_circuit_size` calls; which
+calls raise, the state of the object, the message and the rebuilt object are compared with
+Model/C15FF.lean (op `ffcp`), the rest (payload circuits, value tables, `config_modes`, `configure`, the
+derived flags of the enclosing experiment, one Parameter object per name) by the direct oracle.
+
 A failing (iii) is a `violation`; a disagreement with the model while (iii) holds is `broken`.
 A malformed stream (tampered messages) ties the rejection branches of the readers to the model.
 """
@@ -1519,6 +1526,15 @@ def ff_raise_signature(chk, recs, e):
     return None
 
 
+def ff_signature(bad):
+    """stable names for the two feed-forward defects of the reader"""
+    if any(k + ": " in bad for k in ("is_unitary", "has_feedforward", "detectors_injected")):
+        return "feedforward-flags"         # ExperimentBuilder appends the configurator without Experiment.add's records
+    if "several Parameter objects" in bad:
+        return "provider-name-table"       # every circuit of a stand-alone provider is read with its own name table
+    return None
+
+
 def ff_stats(chk, rec, where):
     s = rec["spec"]
     chk.count("ff", s["t"] + ":" + where)
@@ -1859,6 +1875,8 @@ def judge_experiment(chk, spec, tmpdir, stats=False):
         sig = None
         if raised is not None:
             sig = ff_raise_signature(chk, recs, raised)
+        if sig is None and recs:
+            sig = ff_signature(bad)
         if sig is None and not agree:
             sig = explain(chk, "experiment", dx_l, evs, enc_l, dec_l)
         return ("violation", sig or "experiment-roundtrip", f"experiment ({entry}): {bad}")
@@ -2153,6 +2171,8 @@ def judge_simple(chk, spec, tmpdir, stats=False):
                                 "asfound": True})
             if rep.get("dec") == {"sym": [[str(v) for v in row] for row in y.tolist()]}:
                 sig = "symbolic-matrix-order"
+        if fam == "ff":
+            sig = ff_signature(bad) or sig
         return ("violation", sig, f"{fam} ({entry}): {bad}")
     if fam == "container" or not isinstance(out, str):
         if stats:
